@@ -29,7 +29,7 @@ RULE = (
 ASSUMPTIONS = [
     "one Session, SQLite in-memory; rows are only changed through this session, so the model knows which rows exist",
     "objects whose strong reference the harness dropped must disappear from the identity map only if they have no pending changes (documented weak-referencing behaviour); the harness only drops clean objects",
-    "a primary key change or delete is not applied to a row that is also loaded under another identity token (the twin would refer to a vanished row)",
+    "a primary key change, delete, modification or merge is not applied to a row that is also loaded under another identity token (two objects would write one row)",
     "merge(load=False) only for identities whose row exists; rollback is not part of this property (C33/C35)",
 ]
 
@@ -224,6 +224,9 @@ def check(case, ctx):
                 pks = sorted(set(rows) | {k[0] for k in idmap} | {1, 2, 3, 4})
                 pk = pks[a % len(pks)]
                 key = (pk, None)
+                if any(k[0] == pk and k[1] is not None for k in idmap):
+                    ctx.info("skipped:merge-into-row-with-token-twin")
+                    continue
                 xval = (b % 7) * 10 + 5
                 load = c % 3 != 0
                 detached = c % 2 == 0
@@ -265,7 +268,7 @@ def check(case, ctx):
                     model[i].dirty = False
                 del got, copy
             elif op in ("refresh", "expire", "expire_attr", "modify", "modify_flush", "pk_change", "delete", "row_switch", "expunge", "drop"):
-                if op in ("pk_change", "delete", "row_switch"):
+                if op in ("pk_change", "delete", "row_switch", "modify", "modify_flush"):
                     i = pick(a, lambda m: m.st == "persistent" and not twin(m))
                 elif op == "drop":
                     i = pick(a, lambda m: m.st == "persistent" and not m.dirty)
